@@ -635,7 +635,7 @@ func c20Gauges(q []c20Q) (queued, inflight uint64) {
 
 func runC20(c *explore.Ctx) {
 	c.Level = "model_checking"
-	c.Rule = "E2: every sequence of the 19-event alphabet (a protocol error answered by a broker-originated DISCONNECT, connect v5 persistent / v3 clean, subscribe, publish QoS0/1/2 with PUBREL, ack, PINGREQ, DISCONNECT, abrupt close, clock advance, TerminateSession, take-over, unsubscribe) over two clients up to the depth, plus a tree (depth-1) over connections that never attach (TCP open/close, first packet not CONNECT, CONNECT refused) mixed with ordinary connects and closes, plus a tree with authentication hooks installed (CONNECT with an authentication method, re-authentication: AUTH packets in both directions), for two broker configurations (default; max_queued 2 / max_inflight 1), on a fresh in-process broker; at every quiescent point every uint64 leaf of GetGlobalStats()/GetClientStats() (packets and bytes per type and direction, per-QoS messages received/sent, queued and in-flight gauges, connection/session counters and gauges) is compared with the harness's own packet log (wire lengths) and session/queue model."
+	c.Rule = "E2: every sequence of the 19-event alphabet (a protocol error answered by a broker-originated DISCONNECT, connect v5 persistent / v3 clean, subscribe, publish QoS0/1/2 with PUBREL, ack, PINGREQ, DISCONNECT, abrupt close, clock advance, TerminateSession, take-over, unsubscribe) over two clients up to the depth, plus a tree (depth-1) over connections that never attach (TCP open/close, first packet not CONNECT, CONNECT refused) mixed with ordinary connects and closes, plus a tree with authentication hooks installed (CONNECT with an authentication method, re-authentication: AUTH packets in both directions), for two broker configurations (default; max_queued 2 / max_inflight 1), on a fresh in-process broker; at every quiescent point every uint64 leaf of GetGlobalStats()/GetClientStats() (packets and bytes per type and direction, per-QoS messages received/sent, queued and in-flight gauges, connection/session counters and gauges) is compared with the harness's own packet log (wire lengths) and session/queue model. E3: the session sweeper's tick races the reconnect of an expired session (two expired sessions, both start orders): connection and session counters equal what the CONNACK says happened, no gauge wraps."
 	c.Trusted = []string{"vsched default schedule", "refmqtt (packet lengths are the encoded lengths actually exchanged)"}
 	c.Assumptions = []string{"per-client statistics restart when the session is terminated (the broker deletes them); global counters keep the traffic of terminated sessions", "dropped-message counters are checked by C10/C12/C13 through the drop hook, not here"}
 	if rc := replayCase(c); rc != nil {
@@ -651,6 +651,7 @@ func runC20(c *explore.Ctx) {
 	}
 	c.Extra["depth"] = depth
 	concPubSubPhase(c, "C20")
+	c20Sweeper(c)
 	// directed non-initial state: A subscribed and offline, B online
 	for pi, prefix := range [][]int{{0, 2, 10, 1}, {0, 2, 1, 5}} {
 		prefix := prefix
